@@ -535,6 +535,23 @@ class ExecMixin(object):
         ghost_code += spec.get("_head", []) + spec.get("_end", [])
         names, muts, attrs = assigned_names(body + ghost_code)
         names |= set(extra_names)
+        # calls through contracts: the receiver of a method that has a contract, and every name passed to a callee that
+        # has a contract, may be modified by it
+        cmethods = set(m for (_, m) in self.method_contracts)
+        gnames = set(self.unit.global_callees)
+        for s_ in body:
+            for n_ in ast.walk(s_):
+                if isinstance(n_, ast.Call):
+                    f_ = n_.func
+                    if isinstance(f_, ast.Attribute) and f_.attr in cmethods:
+                        muts.add(ast.unparse(f_.value))
+                        for a_ in n_.args:
+                            if isinstance(a_, (ast.Name, ast.Attribute)):
+                                muts.add(ast.unparse(a_))
+                    if isinstance(f_, ast.Name) and f_.id in gnames:
+                        for a_ in n_.args:
+                            if isinstance(a_, (ast.Name, ast.Attribute)):
+                                muts.add(ast.unparse(a_))
         for nm in sorted(names):
             if nm in st.env:
                 st.env[nm] = self.fresh_like(st.env[nm], st, nm)
@@ -580,6 +597,8 @@ class ExecMixin(object):
             return cell
         if isinstance(cell, HCList) and any(isinstance(x, (VRef, VTuple, VNone, VOpt)) for x in cell.items):
             return HOpaque()
+        if isinstance(cell, (HList, HCList)) and self.unit.list_kinds.get(nm) == "opaque":
+            return HOpaque()      # a list of objects the contract does not speak about
         if isinstance(cell, (HList, HCList)):
             c = self.as_hlist(cell, ek=self.unit.list_kinds.get(nm, "str"))
             n = z3.Int(fresh_name(nm + "_len"))
@@ -701,7 +720,7 @@ class ExecMixin(object):
                             ev_ = self._reclist_iter.elem(k, d)
                         self.assign(stmt.target, ev_, d, stmt)
                     outs = self.run_block_tolerant(stmt.body, d)
-                except (OutOfSubset, ContractError, PathEnd):
+                except (OutOfSubset, ContractError, PathEnd, RaiseSignal):
                     outs = []
                 new = False
                 for s2 in outs:
@@ -751,7 +770,7 @@ class ExecMixin(object):
                         continue
                     for kind, s2, val in self.run_stmt(stmt, s):
                         (nxt if kind == NORMAL else done).append(s2)
-                except (OutOfSubset, ContractError, PathEnd):
+                except (OutOfSubset, ContractError, PathEnd, RaiseSignal):
                     done.append(s)
             cur = nxt
         return done + cur
